@@ -63,11 +63,19 @@ SetTypeFrom(st, ns, t, i) ==
   ELSE SetTypeFrom([st EXCEPT !.ty[ns[i]] = t], ns, t, i + 1)
 SetTypeRes(st, ns, t) == IF t \notin Addable THEN Err(st, "ValueError") ELSE SetTypeFrom(st, ns, t, 1)
 
-(* ---- uid(n): n, n_0, n_1, ... n_10, n_70, n_490, ... ---- *)
+(* ---- uid(n): n, n_0, n_1, ... n_10, n_70, n_490, ... (x7 for ever; the suffixes are kept as decimal STRINGS because
+   TLC's integers are 32-bit and the code's are not) ---- *)
+DigitOf(ch) == CHOOSE d \in 0..9 : ToString(d) = ch
+RECURSIVE Mul7From(_,_,_)
+Mul7From(s, i, carry) == IF i = 0 THEN (IF carry = 0 THEN "" ELSE ToString(carry))
+                         ELSE LET v == DigitOf(SubSeq(s, i, i)) * 7 + carry IN Mul7From(s, i - 1, v \div 10) \o ToString(v % 10)
+RECURSIVE UidSuffix(_)
+UidSuffix(j) == IF j <= 11 THEN ToString(j - 1) ELSE Mul7From(UidSuffix(j - 1), Len(UidSuffix(j - 1)), 0)     \* j = 1, 2, ...
 UidSteps == <<0, 1, 2, 3, 4, 5, 6, 7, 8, 9, 10, 70, 490, 3430, 24010, 168070, 1176490, 8235430, 57648010, 403536070>>
+MaxUidTries == 60
 RECURSIVE UidFrom(_,_,_)
-UidFrom(st, n, j) == IF j > Len(UidSteps) THEN n \o "_overflow"
-                     ELSE LET cand == n \o "_" \o ToString(UidSteps[j]) IN
+UidFrom(st, n, j) == IF j > MaxUidTries THEN n \o "_overflow"
+                     ELSE LET cand == n \o "_" \o UidSuffix(j) IN
                           IF cand \in st.nodes THEN UidFrom(st, n, j + 1) ELSE cand
 Uid(st, n) == IF n \notin st.nodes THEN n ELSE UidFrom(st, n, 1)
 
